@@ -222,8 +222,102 @@ func init() {
 				return "", fmt.Errorf("getMatchers: value rewrite not recognised")
 			}
 		}
+		// ---- selectors that accept the empty value (after `fix: a Pyroscope selector that accepts the empty value …`):
+		// the tail of the loop (key/value selectors) and the key/value block of Process, compared with the two shapes
+		// the model knows
+		var tail []string
+		for i, st := range loopBody {
+			if _, ok := st.(*ast.SwitchStmt); ok {
+				for _, t := range loopBody[i+1:] {
+					tail = append(tail, promPrintNode(fset, t))
+				}
+			}
+		}
+		const globalStmt = `if clause != nil { globalClauses = append(globalClauses, clause) continue }`
+		const errStmt = `if err != nil { return nil, err }`
+		tailOld := []string{globalStmt,
+			`clause, err = s.getMatcherClause(sql.NewRawObject("val"), selector.Op, sql.NewStringVal(_str))`, errStmt,
+			`clause = sql.And(sql.Eq(sql.NewRawObject("key"), sql.NewStringVal(selector.Name)), clause)`,
+			`kvClauses = append(kvClauses, clause)`}
+		tailNew := []string{globalStmt,
+			`op := selector.Op`, `optional, err := acceptsEmpty(op, _str)`, errStmt,
+			`if optional { op = inverseOp(op) } else { kvRequired |= 1 << len(kvClauses) }`,
+			`clause, err = s.getMatcherClause(sql.NewRawObject("val"), op, sql.NewStringVal(_str))`, errStmt,
+			`clause = sql.And(sql.Eq(sql.NewRawObject("key"), sql.NewStringVal(selector.Name)), clause)`,
+			`kvClauses = append(kvClauses, clause)`}
+		pd := findFunc(f, "StreamSelectorPlanner", "Process")
+		if pd == nil {
+			return "", fmt.Errorf("StreamSelectorPlanner.Process not found")
+		}
+		kvBlock := ""
+		for _, st := range pd.Body.List {
+			if ifs, ok := st.(*ast.IfStmt); ok && promPrintNode(fset, ifs.Cond) == "len(matchers.kvMatchers) > 0" {
+				kvBlock = promPrintNode(fset, ifs.Body)
+			}
+		}
+		const kvOld = `{ res = res. AndWhere(sql.Or(matchers.kvMatchers...)). AndHaving(sql.Eq( clickhouse_planner.NewSqlBitSetAnd(matchers.kvMatchers), sql.NewIntVal((1<<len(matchers.kvMatchers))-1))) }`
+		const kvNew = `{ if matchers.kvRequired != 0 { res = res.AndWhere(sql.Or(matchers.kvMatchers...)) } res = res.AndHaving(sql.Eq( clickhouse_planner.NewSqlBitSetAnd(matchers.kvMatchers), sql.NewIntVal(matchers.kvRequired))) }`
+		absentLabel := ""
+		var inverseOps [][2]string
+		inverseDefault := ""
+		switch {
+		case strings.Join(tail, "\n") == strings.Join(tailOld, "\n") && kvBlock == kvOld:
+			absentLabel = "row-required"
+		case strings.Join(tail, "\n") == strings.Join(tailNew, "\n") && kvBlock == kvNew:
+			absentLabel = "inverse"
+			ae := findFunc(f, "", "acceptsEmpty")
+			const aeBody = `{ switch op { case "=": return val == "", nil case "!=": return val != "", nil case "=~", "!~": re, err := regexp.Compile(val) if err != nil { return false, err } return re.MatchString("") == (op == "=~"), nil } return false, fmt.Errorf("unknown operator: %s", op) }`
+			if ae == nil || promPrintNode(fset, ae.Body) != aeBody {
+				return "", fmt.Errorf("acceptsEmpty: body not recognised")
+			}
+			io := findFunc(f, "", "inverseOp")
+			if io == nil || len(io.Body.List) != 2 {
+				return "", fmt.Errorf("inverseOp: expected a switch followed by a return")
+			}
+			isw, ok := io.Body.List[0].(*ast.SwitchStmt)
+			if !ok || promPrintNode(fset, isw.Tag) != "op" {
+				return "", fmt.Errorf("inverseOp: expected switch op")
+			}
+			for _, st := range isw.Body.List {
+				cc := st.(*ast.CaseClause)
+				if len(cc.List) != 1 || len(cc.Body) != 1 {
+					return "", fmt.Errorf("inverseOp: unexpected case shape")
+				}
+				from, ok1 := strLit(cc.List[0])
+				rs, ok2 := cc.Body[0].(*ast.ReturnStmt)
+				if !ok1 || !ok2 || len(rs.Results) != 1 {
+					return "", fmt.Errorf("inverseOp: unexpected case shape")
+				}
+				to, ok := strLit(rs.Results[0])
+				if !ok {
+					return "", fmt.Errorf("inverseOp: case does not return a literal")
+				}
+				inverseOps = append(inverseOps, [2]string{from, to})
+			}
+			rs, ok := io.Body.List[1].(*ast.ReturnStmt)
+			if !ok || len(rs.Results) != 1 {
+				return "", fmt.Errorf("inverseOp: no final return")
+			}
+			inverseDefault, ok = strLit(rs.Results[0])
+			if !ok {
+				return "", fmt.Errorf("inverseOp: final return is not a literal")
+			}
+		default:
+			return "", fmt.Errorf("getMatchers / Process: the key/value selector code is neither of the two known shapes: tail %q, block %q", tail, kvBlock)
+		}
 		var b strings.Builder
 		b.WriteString("namespace Qryn.Gen.ProfSelect\n")
+		b.WriteString("/-- getMatchers/Process: \"inverse\" = a key/value selector that accepts the empty value is asked inverted and its bit must stay clear; \"row-required\" = every key/value selector needs an index row (the code as it was written) -/\n")
+		fmt.Fprintf(&b, "def absentLabel : String := %s\n", leanStr(absentLabel))
+		b.WriteString("/-- inverseOp: operator ↦ its inverse (switch cases in order), and the value returned for every other operator -/\n")
+		b.WriteString("def inverseOps : List (String × String) := [")
+		for i, p := range inverseOps {
+			if i > 0 {
+				b.WriteString(", ")
+			}
+			fmt.Fprintf(&b, "(%s, %s)", leanStr(p[0]), leanStr(p[1]))
+		}
+		fmt.Fprintf(&b, "]\ndef inverseDefault : String := %s\n", leanStr(inverseDefault))
 		b.WriteString("/-- getMatchers: pseudo-label ↦ (SQL field, applied inside arrayExists(x -> …, sample_types_units)) -/\n")
 		b.WriteString("def pseudoLabels : List (String × (String × Bool)) := [")
 		for i, p := range pseudos {
